@@ -61,8 +61,8 @@ theorem trySide_sound (hG : GreedyComplete) {DX DY : Mat} {n m : ℕ} (hX : Dist
   unfold trySide at h
   simp only [Bool.and_eq_true, decide_eq_true_eq] at h
   obtain ⟨_, hlen, hconf⟩ := h
-  obtain ⟨hS, hP⟩ := largestBoundedCurvatureIdx_spec keyMul DX diamX d
-  rw [hX.len] at hS
+  obtain ⟨hS, hP, hKS⟩ := largestBoundedCurvature_spec keyMul hX.len hX.row diamX d
+  rw [hKS] at hlen hconf
   generalize largestBoundedCurvatureIdx keyMul DX diamX d = S at hS hP hlen hconf
   have hnd : S.Nodup := hS.nodup List.nodup_range
   have hlt : ∀ s ∈ S, s < n := fun s hs => List.mem_range.1 (hS.subset hs)
